@@ -33,7 +33,8 @@ VARIABLES bal,        \* [Accts -> Nat]
           nonce,      \* [Users -> Nat]
           staked,     \* [Users -> Nat]
           total,      \* recorded total stake
-          owner,      \* [n1 |-> owner of the one name "n1", admin |-> owner of the name contract itself (v1setOwner)], Users \cup {None}
+          owner,      \* [n1 |-> owner of the one name "n1", dest |-> the address "n1" stands for, admin |-> owner of the name contract itself (v1setOwner)], Users \cup {None}
+          name0,      \* [owner, dest]: the mapping of "n1" COMMITTED by the last finished block = the state at the start of the running block
           deployed,   \* is the contract deployed
           store,      \* contract storage: value of the single key "k" (0 = absent)
           executed,   \* set of transactions executed on this chain (success or error)
@@ -43,8 +44,8 @@ VARIABLES bal,        \* [Accts -> Nat]
           rcpts,      \* receipts of the current block: sequence of [id, status, fee]
           lastAct
 
-vars == <<bal, nonce, staked, total, owner, deployed, store, executed, bpReward, burnt, blockNo, inBlock, txCount, rcpts, lastAct>>
-view == <<bal, nonce, staked, total, owner, deployed, store, executed, bpReward, burnt, blockNo, inBlock, txCount>>
+vars == <<bal, nonce, staked, total, owner, name0, deployed, store, executed, bpReward, burnt, blockNo, inBlock, txCount, rcpts, lastAct>>
+view == <<bal, nonce, staked, total, owner, name0, deployed, store, executed, bpReward, burnt, blockNo, inBlock, txCount>>
 
 Supply == Cardinality(Users) * InitBal
 
@@ -52,27 +53,47 @@ Supply == Cardinality(Users) * InitBal
 \* TxPool holds templates [tid, kind, from, signer, chain, to, amt, ops]; a transaction is a template plus a
 \* nonce (next / dup / gap relative to the sender's current nonce) and the id <<tid, nonce>>:
 \*   [tid, id, kind, from, signer, chain, nonce, to, amt, ops]
-\*   kind: transfer | stake | unstake | vote | name | deploy | call | fdcall | vault
+\*   kind: transfer | stake | unstake | vote | name | nameupd | setowner | deploy | call | fdcall | vault
+\*   from: a user, or NameId: the transaction names the NAME "n1" as its sender account
 \*   signer: the key that signed (= from when honest); chain: "this" | "other"
 \*   ops (call): "ok" | "fail" (runtime failure after a storage write and a send) | "sys" (system failure of the VM after the same) | "send" (contract sends amt to `to`)
-Authorised(t) == t.signer = t.from /\ t.chain = "this"
+\*   ops (from = NameId): "" | a user: the account whose nonce counter the transaction's nonce is taken from (an
+\*        adversary who signs for a name picks the nonce freely, e.g. the next nonce of the name's NEW holder)
+NameId == "n1"
+
+\* THE RULE FOR NAME SENDERS (chain/signVerifier.go verifyTx, chain/chainhandle.go executeTx, contract/name Resolve /
+\* GetOwner, both with useInitial): a block's signatures are verified against, and its sender names are resolved in,
+\* the name mapping COMMITTED AT THE START OF THE BLOCK (name0), never the mapping a transaction of the running block
+\* wrote.  So a transaction with account "n1"
+\*   - is authorised iff it is signed by the key of name0.owner (the registered owner at block start), and
+\*   - is executed for (nonce checked and advanced, amount and fee debited) name0.dest, the address the name stood
+\*     for in that same state.
+\* Owner and executing account are taken from ONE state; that is what makes "signed by the registered owner of the
+\* sender name" (C04) mean something: the signer is the owner of the very mapping that selects the debited account.
+Sender(t) == IF t.from = NameId THEN name0.dest ELSE t.from       \* the executing account; None: the name stood for nothing
+Authorised(t) == /\ t.chain = "this"
+                 /\ IF t.from = NameId THEN name0.owner # None /\ t.signer = name0.owner ELSE t.signer = t.from
 \* who pays the fee: the called contract for a fee-delegated call, the sender otherwise
-Payer(t) == IF t.kind = "fdcall" THEN Contract ELSE t.from
+Payer(t) == IF t.kind = "fdcall" THEN Contract ELSE Sender(t)
 
 \* What the properties FIX about the class of t: an unauthorised transaction, a wrong nonce or a replay must be
 \* rejected (C04).  Whether an authorised transaction succeeds, fails at run time or is rejected (balance, fee
 \* schedule, lock periods, contract behaviour ...) is the implementation's business; the specification only
 \* demands that the effects have the shape of the class (C03) and conserve coin (C01).
-MustReject(t) == ~Authorised(t) \/ t.nonce # nonce[t.from] + 1 \/ t \in executed
+MustReject(t) == ~Authorised(t) \/ Sender(t) = None \/ t.nonce # nonce[Sender(t)] + 1 \/ t \in executed
 
 \* an authorised transaction may take effect only if the abstract state can carry the effect
 CanApply(t, fee) ==
-  /\ bal[t.from] >= t.amt + (IF Payer(t) = t.from THEN fee ELSE 0) + (IF t.kind = "name" THEN NamePrice ELSE 0)
+  LET S == Sender(t) IN
+  /\ bal[S] >= t.amt + (IF Payer(t) = S THEN fee ELSE 0) + (IF t.kind \in {"name", "nameupd"} THEN NamePrice ELSE 0)
   /\ bal[Payer(t)] >= fee
-  /\ CASE t.kind = "stake"   -> staked[t.from] = 0 /\ t.amt >= MinStake
+  /\ CASE t.kind = "stake"   -> staked[S] = 0 /\ t.amt >= MinStake
        [] t.kind = "unstake" -> FALSE                      \* inside the staking lock period (heights are small)
-       [] t.kind = "vote"    -> staked[t.from] > 0            \* (re-votes inside the voting lock period are rejected by the code)
+       [] t.kind = "vote"    -> staked[S] > 0                 \* (re-votes inside the voting lock period are rejected by the code)
        [] t.kind = "name"    -> owner.n1 = None
+       \* v1updateName (contract/name ValidateNameTx, UpdateName): the transaction's account field is the name itself or its
+       \* CURRENT owner (in-block state), and the name must be a committed one ("not created yet" otherwise)
+       [] t.kind = "nameupd" -> (t.from = NameId \/ owner.n1 = t.from) /\ name0.dest # None
        [] t.kind = "setowner" -> owner.admin = None            \* one shot: anybody may appoint the owner of the name contract
        [] t.kind = "deploy"  -> ~deployed
        [] t.kind = "call"    -> deployed
@@ -91,46 +112,52 @@ Move(b, from, to, a) == [b EXCEPT ![from] = @ - a, ![to] = @ + a]
 NameRcpt == IF owner.admin = None THEN Name ELSE owner.admin
 
 ApplySuccess(t, fee) ==
-  /\ nonce' = [nonce EXCEPT ![t.from] = t.nonce]
+  LET S == Sender(t) IN
+  /\ nonce' = [nonce EXCEPT ![S] = t.nonce]
   /\ executed' = executed \cup {t}
   /\ bpReward' = bpReward + fee
   /\ CASE t.kind = "transfer" ->
-            /\ bal' = [Move(bal, t.from, t.to, t.amt) EXCEPT ![t.from] = @ - fee]
+            /\ bal' = [Move(bal, S, t.to, t.amt) EXCEPT ![S] = @ - fee]
             /\ UNCHANGED <<staked, total, owner, deployed, store>>
        [] t.kind = "vault" ->
-            /\ bal' = [Move(bal, t.from, Vault, t.amt) EXCEPT ![t.from] = @ - fee]
+            /\ bal' = [Move(bal, S, Vault, t.amt) EXCEPT ![S] = @ - fee]
             /\ UNCHANGED <<staked, total, owner, deployed, store>>
        [] t.kind = "stake" ->
-            /\ bal' = [Move(bal, t.from, Sys, t.amt) EXCEPT ![t.from] = @ - fee]
-            /\ staked' = [staked EXCEPT ![t.from] = @ + t.amt] /\ total' = total + t.amt
+            /\ bal' = [Move(bal, S, Sys, t.amt) EXCEPT ![S] = @ - fee]
+            /\ staked' = [staked EXCEPT ![S] = @ + t.amt] /\ total' = total + t.amt
             /\ UNCHANGED <<owner, deployed, store>>
        [] t.kind = "vote" ->                                 \* tallies only (Governance.tla); no coin moves
-            /\ bal' = [bal EXCEPT ![t.from] = @ - fee]
+            /\ bal' = [bal EXCEPT ![S] = @ - fee]
             /\ UNCHANGED <<staked, total, owner, deployed, store>>
        [] t.kind = "name" ->                                 \* the price goes to the owner of the name contract once there is one
-            /\ bal' = [Move(bal, t.from, NameRcpt, NamePrice) EXCEPT ![t.from] = @ - fee]
-            /\ owner' = [owner EXCEPT !.n1 = t.from]
+            /\ bal' = [Move(bal, S, NameRcpt, NamePrice) EXCEPT ![S] = @ - fee]
+            /\ owner' = [owner EXCEPT !.n1 = S, !.dest = S]                     \* v1createName: owner = destination = the creator
+            /\ UNCHANGED <<staked, total, deployed, store>>
+       [] t.kind = "nameupd" ->                              \* v1updateName(n1, to), `to` a plain account: owner AND destination become `to`; the price is paid again
+            /\ bal' = [Move(bal, S, NameRcpt, NamePrice) EXCEPT ![S] = @ - fee]
+            /\ owner' = [owner EXCEPT !.n1 = t.to, !.dest = t.to]
             /\ UNCHANGED <<staked, total, deployed, store>>
        [] t.kind = "setowner" ->                             \* everything the name contract collected so far moves to the new owner
-            /\ bal' = [Move(bal, Name, t.to, bal[Name]) EXCEPT ![t.from] = @ - fee]
+            /\ bal' = [Move(bal, Name, t.to, bal[Name]) EXCEPT ![S] = @ - fee]
             /\ owner' = [owner EXCEPT !.admin = t.to]
             /\ UNCHANGED <<staked, total, deployed, store>>
        [] t.kind = "deploy" ->
-            /\ bal' = [bal EXCEPT ![t.from] = @ - fee]
+            /\ bal' = [bal EXCEPT ![S] = @ - fee]
             /\ deployed' = TRUE
             /\ UNCHANGED <<staked, total, owner, store>>
        [] t.kind = "call" ->
-            /\ bal' = [Move(bal, t.from, Contract, t.amt) EXCEPT ![t.from] = @ - fee]
+            /\ bal' = [Move(bal, S, Contract, t.amt) EXCEPT ![S] = @ - fee]
             /\ store' = t.nonce                    \* the call writes the storage key
             /\ UNCHANGED <<staked, total, owner, deployed>>
        [] t.kind = "fdcall" ->                    \* fee-delegated call: the contract pays the fee
-            /\ bal' = [Move(bal, t.from, Contract, t.amt) EXCEPT ![Contract] = @ - fee]
+            /\ bal' = [Move(bal, S, Contract, t.amt) EXCEPT ![Contract] = @ - fee]
             /\ store' = t.nonce
             /\ UNCHANGED <<staked, total, owner, deployed>>
 
 \* a transaction that fails at run time: ONLY the fee (charged to the payer) and the SENDER's nonce
 ApplyError(t, fee) ==
-  /\ nonce' = [nonce EXCEPT ![t.from] = t.nonce]
+  LET S == Sender(t) IN
+  /\ nonce' = [nonce EXCEPT ![S] = t.nonce]
   /\ executed' = executed \cup {t}
   /\ bal' = [bal EXCEPT ![Payer(t)] = @ - fee]
   /\ bpReward' = bpReward + fee
@@ -140,18 +167,20 @@ ApplyError(t, fee) ==
 Init ==
   /\ bal = [a \in Accts |-> IF a \in Users THEN InitBal ELSE 0]
   /\ nonce = [u \in Users |-> 0] /\ staked = [u \in Users |-> 0] /\ total = 0
-  /\ owner = [n1 |-> None, admin |-> None] /\ deployed = FALSE /\ store = 0 /\ executed = {}
+  /\ owner = [n1 |-> None, dest |-> None, admin |-> None] /\ name0 = [owner |-> None, dest |-> None] /\ deployed = FALSE /\ store = 0 /\ executed = {}
   /\ bpReward = 0 /\ burnt = 0 /\ blockNo = 0 /\ inBlock = FALSE /\ txCount = 0 /\ rcpts = <<>>
   /\ lastAct = [name |-> "Init"]
 
 BeginBlock ==
   /\ ~inBlock /\ blockNo < MaxBlocks
   /\ inBlock' = TRUE /\ blockNo' = blockNo + 1 /\ txCount' = 0 /\ rcpts' = <<>>
-  /\ UNCHANGED <<bal, nonce, staked, total, owner, deployed, store, executed, bpReward, burnt>>
+  /\ UNCHANGED <<bal, nonce, staked, total, owner, name0, deployed, store, executed, bpReward, burnt>>
   /\ lastAct' = [name |-> "BeginBlock"]
 
+\* the account whose nonce counter the nonce of the new transaction is taken from
+NonceBase(tpl) == IF tpl.from # NameId THEN tpl.from ELSE IF tpl.ops \in Users THEN tpl.ops ELSE name0.dest
 Mk(tpl, nm) ==
-  LET n == nonce[tpl.from] + (CASE nm = "next" -> 1 [] nm = "dup" -> 0 [] nm = "gap" -> 2)
+  LET n == (IF NonceBase(tpl) = None THEN 0 ELSE nonce[NonceBase(tpl)]) + (CASE nm = "next" -> 1 [] nm = "dup" -> 0 [] nm = "gap" -> 2)
   IN [tid |-> tpl.tid, id |-> <<tpl.tid, n>>, kind |-> tpl.kind, from |-> tpl.from, signer |-> tpl.signer, chain |-> tpl.chain,
       nonce |-> n, to |-> tpl.to, amt |-> tpl.amt, ops |-> tpl.ops]
 
@@ -164,7 +193,7 @@ Offer(t, fee, how) ==
             [] c = "error"   -> ApplyError(t, fee)   /\ rcpts' = Append(rcpts, [id |-> t.id, status |-> "ERROR", fee |-> fee])
             [] c = "reject"  -> UNCHANGED <<bal, nonce, staked, total, owner, deployed, store, executed, bpReward, rcpts>>
        /\ lastAct' = [name |-> "Tx", tx |-> t, fee |-> fee, class |-> c, how |-> how]
-  /\ UNCHANGED <<burnt, blockNo, inBlock>>
+  /\ UNCHANGED <<burnt, blockNo, inBlock, name0>>
 
 Tx(tpl, nm, fee) == Offer(Mk(tpl, nm), fee, nm)
 \* an already executed transaction offered again (replay; also what a reorganisation does when it returns txs)
@@ -179,6 +208,7 @@ EndBlock(winner) ==
           THEN bal' = [b1 EXCEPT ![Coinbase] = @ + bpReward] /\ burnt' = burnt
           ELSE bal' = b1 /\ burnt' = burnt + bpReward
   /\ bpReward' = 0 /\ inBlock' = FALSE
+  /\ name0' = [owner |-> owner.n1, dest |-> owner.dest]          \* the block is committed: its name mapping is what the next block starts from
   /\ UNCHANGED <<nonce, staked, total, owner, deployed, store, executed, blockNo, txCount, rcpts>>
   /\ lastAct' = [name |-> "EndBlock", winner |-> winner]
 
@@ -205,15 +235,26 @@ Trichotomy ==
          /\ c \in {"success", "error", "reject"}
          /\ c = "reject" => /\ bal' = bal /\ nonce' = nonce /\ staked' = staked /\ total' = total /\ owner' = owner
                             /\ deployed' = deployed /\ store' = store /\ bpReward' = bpReward /\ rcpts' = rcpts
-         /\ c = "error"  => /\ bal' = [bal EXCEPT ![Payer(t)] = @ - f] /\ nonce' = [nonce EXCEPT ![t.from] = t.nonce]
+         /\ c = "error"  => /\ bal' = [bal EXCEPT ![Payer(t)] = @ - f] /\ nonce' = [nonce EXCEPT ![Sender(t)] = t.nonce]
                             /\ staked' = staked /\ total' = total /\ owner' = owner /\ deployed' = deployed /\ store' = store
                             /\ bpReward' = bpReward + f]_vars
 
 \* C04: only authorised transactions with the exact next nonce change state; no tx id is executed twice
 OnlyAuthorised ==
   [][(lastAct'.name = "Tx" /\ lastAct'.class # "reject") =>
-        /\ Authorised(lastAct'.tx) /\ lastAct'.tx.nonce = nonce[lastAct'.tx.from] + 1 /\ lastAct'.tx \notin executed]_vars
+        /\ Authorised(lastAct'.tx) /\ Sender(lastAct'.tx) # None
+        /\ lastAct'.tx.nonce = nonce[Sender(lastAct'.tx)] + 1 /\ lastAct'.tx \notin executed]_vars
 NonceSequential == [][\A u \in Users : nonce'[u] \in {nonce[u], nonce[u] + 1}]_vars
+\* C04, name senders: a transaction whose sender account is the name takes effect only when it is signed by the key of
+\* the owner REGISTERED IN THE STATE THE BLOCK STARTS FROM, and then the only user whose nonce moves or whose balance
+\* goes down is the address the name stood for in that same state -- never the party a transaction of the running
+\* block handed the name to (who signed nothing), never a third party
+NameSenderNeedsOwnerKey ==
+  [][(lastAct'.name = "Tx" /\ lastAct'.class # "reject" /\ lastAct'.tx.from = NameId) =>
+        /\ name0.owner # None /\ lastAct'.tx.signer = name0.owner /\ name0.dest # None
+        /\ \A u \in Users : (nonce'[u] # nonce[u] \/ bal'[u] < bal[u]) => u = name0.dest]_vars
+\* the committed mapping changes only when a block ends
+CommittedNameStable == [][name0' # name0 => lastAct'.name = "EndBlock"]_vars
 
 \* C15 (part): the recorded total is the sum of the stakes and the balance of the staking account
 StakeAccounting == total = SumFun(staked) /\ bal[Sys] = total
